@@ -125,11 +125,11 @@ def run(tier, seed):
     inner = ctxs
     outer = ctxs if not quick else [c for c in ctxs if c[0] in (
         "top", "if-else", "if-elif-cond", "for", "while-cond", "while-body", "fn", "lambda", "list-1",
-        "v", "ß", "₌B", "after-R")]
+        "v", "ß", "₌B", "after-R", "after-⁽", "after-‡")]
     explore.pmap(_ctx_shard, [(c, outer, inner, None) for c in explore.chunks(keys, 64)], rep, seed)
     reps = template_classes() + list(progs.MODIFIER_ARITY) + ["X", "x"]
     core = [c for c in ctxs if c[0] in ("if-else", "if-elif-cond", "for", "while-cond", "while-body", "fn", "lambda", "map",
-                                        "list-1", "v", "ß", "₌B", "≬B", "after-R", "after-†")]
+                                        "list-1", "v", "ß", "₌B", "≬B", "after-R", "after-†", "after-⁽", "after-≬")]
     core3 = core if not quick else [c for c in core if c[0] in ("if-else", "for", "while-cond", "while-body", "fn", "lambda", "list-1", "v", "ß", "after-R")]
     explore.pmap(_deep_shard, [(c, core3, 3) for c in explore.chunks(reps, 32)], rep, seed)
     if not quick:
